@@ -12,6 +12,7 @@ import (
 	"fmt"
 	"io"
 	"math/rand"
+	"net"
 	"runtime/debug"
 	"sort"
 	"strings"
@@ -65,6 +66,12 @@ type Feat struct {
 	// of the latest list is still un-negotiated (so that the library, which goes
 	// on through the list, can still negotiate that mandatory feature).
 	EarlyReady bool `json:"early_ready,omitempty"`
+	// With a dynamic configuration (Group.Dyn) the config callback returns the
+	// feature only in some situations: CfgStates has bit (state & (Secure|Authn))
+	// set for the session states, CfgProfiles bit p for the session profiles
+	// (think: virtual hosts) it is configured for.
+	CfgStates   uint8 `json:"configured_in_states,omitempty"`
+	CfgProfiles uint8 `json:"configured_for_profiles,omitempty"`
 }
 
 // AdItem is one child of a features list sent by the peer (initiator cases).
@@ -99,6 +106,8 @@ type Cfg struct {
 	SkipHeader int        `json:"peer_skips_header_at,omitempty"` // k>0: the peer omits its k-th restart header
 	Reps       int        `json:"repetitions"`
 	Tee        bool       `json:"tee,omitempty"` // StreamConfig.TeeIn/TeeOut are set
+	Dyn        bool       `json:"dynamic_config,omitempty"`
+	Profile    int        `json:"profile,omitempty"` // which configuration profile this session has (0-2)
 }
 
 // Group is a whole case: 1-4 sessions that share ONE xmpp.Negotiator value, one
@@ -108,10 +117,23 @@ type Cfg struct {
 type Group struct {
 	Sessions []*Cfg `json:"sessions"`
 	Overlap  bool   `json:"overlapping,omitempty"`
-	Reps     int    `json:"repetitions"`
+	// Nested: session 2 is run, start to end, from inside the first Negotiate
+	// callback of session 1 (same goroutine, same Negotiator value).
+	Nested bool `json:"nested,omitempty"`
+	Reps   int  `json:"repetitions"`
 }
 
 func elig(f *Feat, st uint8) bool { return st&f.Nec == f.Nec && st&f.Proh == 0 }
+
+// configured is the reference for "the configured features" of a session at a
+// negotiation step: what the case's config callback returns for a session with
+// this profile in this state.
+func configured(c *Cfg, f *Feat, st uint8) bool {
+	if !c.Dyn {
+		return true
+	}
+	return f.CfgStates>>(st&bGate)&1 == 1 && f.CfgProfiles>>uint(c.Profile)&1 == 1
+}
 
 func stateStr(st uint8) string {
 	var p []string
@@ -265,7 +287,65 @@ func genSession(r *rand.Rand, role string, ws, tee bool, feats []Feat) *Cfg {
 	return c
 }
 
+// genDynShaped builds the deterministic dynamic-configuration families (chosen
+// by case index): a mandatory feature that neither restarts nor sets Ready, so
+// that a second features list is negotiated on the SAME stream, in a state /
+// after a nested session for which the config callback answers differently.
+func genDynShaped(r *rand.Rand, index int) *Group {
+	role := "receiver"
+	g := &Group{Reps: 1}
+	if index%2 == 0 {
+		role = "initiator"
+		g.Reps = 2
+	}
+	nested := index%32 >= 2
+	ws := r.Intn(4) == 0
+	tee := r.Intn(4) == 0
+	const all, allP = 0xF, 0x7
+	feats := []Feat{
+		// SASL-like but without a restart: sets Authn and switches itself off
+		{Space: "urn:verif:f0", Local: "f0", Req: true, Proh: bAuthn, Mask: bAuthn, CfgStates: all, CfgProfiles: allP},
+		// only configured before authentication
+		{Space: "urn:verif:f1", Local: "f1", CfgStates: 0x3, CfgProfiles: allP},
+		// only configured after authentication; finishes the session
+		{Space: "urn:verif:f2", Local: "f2", Req: true, BindLike: true, Nec: bAuthn, CfgStates: 0xC, CfgProfiles: allP},
+		{Space: "urn:verif:f3", Local: "f3", CfgStates: all, CfgProfiles: allP, Info: r.Intn(2) == 0},
+	}
+	if nested {
+		// per-profile features instead of per-state ones
+		feats[1].CfgStates, feats[1].CfgProfiles = all, 0x1
+		feats[2].CfgStates = all
+		feats = append(feats, Feat{Space: "urn:verif:f4", Local: "f4", CfgStates: all, CfgProfiles: 0x2})
+		g.Nested = true
+	}
+	nSess := 1
+	if nested {
+		nSess = 2
+	}
+	for i := 0; i < nSess; i++ {
+		c := &Cfg{Role: role, WS: ws, Tee: tee, Feats: feats, Reps: 1, Dyn: true, Profile: i, S2S: r.Intn(3) == 0}
+		if role == "receiver" {
+			// the peer takes the mandatory feature first, then whatever is fresh
+			c.Sels = []Sel{{Cat: "fresh", Pick: 0}, {Cat: "fresh", Pick: r.Intn(4)}, {Cat: "fresh", Pick: r.Intn(4)}, {Cat: "fresh", Pick: r.Intn(4)}}
+		} else {
+			full := func() []AdItem {
+				var ad []AdItem
+				for _, j := range r.Perm(len(feats)) {
+					ad = append(ad, AdItem{Feat: j})
+				}
+				return ad
+			}
+			c.Ads = [][]AdItem{full(), full(), full(), nil}
+		}
+		g.Sessions = append(g.Sessions, c)
+	}
+	return g
+}
+
 func gen(r *rand.Rand, index int) *Group {
+	if index%32 < 4 {
+		return genDynShaped(r, index)
+	}
 	g := &Group{Reps: 1}
 	role := "receiver"
 	if index%2 == 0 {
@@ -297,8 +377,27 @@ func gen(r *rand.Rand, index int) *Group {
 			}
 		}
 	}
+	// a third of the random cases have a config callback whose answer depends
+	// on the session (profile) and its state
+	dyn := r.Intn(3) == 0
+	for i := range feats {
+		feats[i].CfgStates, feats[i].CfgProfiles = 0xF, 0x7
+		if dyn && r.Intn(3) == 0 {
+			feats[i].CfgStates = uint8(r.Intn(16)) | uint8(1<<r.Intn(4))
+		}
+		if dyn && r.Intn(4) == 0 {
+			feats[i].CfgProfiles = uint8(1 + r.Intn(7))
+		}
+	}
+	if nSess > 1 && !g.Overlap && r.Intn(4) == 0 {
+		g.Nested = true
+	}
 	for i := 0; i < nSess; i++ {
 		c := genSession(r, role, ws, tee, feats)
+		c.Dyn = dyn
+		if dyn {
+			c.Profile = r.Intn(3)
+		}
 		if shaped {
 			c.Init = 0
 			// the first list advertises both, so the voluntary wrapping feature is
@@ -361,10 +460,16 @@ type exec struct {
 	readyNoRestart             bool
 	refusedLegit               bool
 	lastSelLegit               *Feat
-	sessIdx                    int   // position in the group (0 = first user of the Negotiator)
-	expectForced               *Feat // rule 2: the forced STARTTLS attempt that has to come next
-	teeReinstalled             bool  // a wrapping feature was negotiated with the tee on
-	readyByFeature             bool  // some Negotiate of this session returned Ready itself
+	sessIdx                    int    // position in the group (0 = first user of the Negotiator)
+	expectForced               *Feat  // rule 2: the forced STARTTLS attempt that has to come next
+	teeReinstalled             bool   // a wrapping feature was negotiated with the tee on
+	readyByFeature             bool   // some Negotiate of this session returned Ready itself
+	listState                  uint8  // state when the current features list was advertised
+	cfgMask, cfgHdr            int    // configured set (bitmask of feature indexes) at the latest list, and the stream it was on
+	nested                     func() // run from inside the first Negotiate callback
+	nestedRan                  bool
+	consults                   int // config callback invocations for this session
+	overlap                    bool
 	ranAway                    bool
 	legitRan                   bool
 }
@@ -376,6 +481,14 @@ func (e *exec) logf(format string, a ...any) {
 }
 
 func (e *exec) violate(rule int, class, format string, a ...any) {
+	if e.overlap && e.cfg.Dyn {
+		// Sessions that overlap in time on one Negotiator value, with a config
+		// callback that answers differently per session: whatever goes wrong here
+		// may come from one session negotiating with what the callback returned
+		// for another (schedule-dependent).  Such reports get a class of their own
+		// so that they never share a key with a sequential root cause.
+		class = "overlapping-sessions-dynamic-config"
+	}
 	key := fmt.Sprintf("neg:%d:%s:%s", rule, e.cfg.Role, class)
 	e.c.Violate(key, "%s\ntranscript:\n  %s", fmt.Sprintf(format, a...), strings.Join(e.log, "\n  "))
 }
@@ -451,6 +564,9 @@ func (e *exec) onList(f *Feat) {
 
 func (e *exec) onParse(f *Feat, start *xml.StartElement) {
 	e.sample("Parse(" + f.Local + ")")
+	if !configured(e.cfg, f, e.listState) {
+		e.violate(1, "parsed-unconfigured", "Parse(%s) called, but the config callback does not return that feature for this session (profile %d) in state %s", f.Local, e.cfg.Profile, stateStr(e.listState))
+	}
 	if start == nil || start.Name.Space != f.Space || start.Name.Local != f.Local {
 		e.violate(2, "foreign-element-parsed", "Parse of %s {%s}%s was handed the element %v", f.Local, f.Space, f.Local, start)
 	}
@@ -494,6 +610,11 @@ func (e *exec) onNegotiate(f *Feat, s *xmpp.Session, data any) (xmpp.SessionStat
 	}
 	// rule 6
 	e.callbackDuringRestart("Negotiate", f)
+	// "configured": the feature must be one the config callback returns for this
+	// session at the step the current list belongs to
+	if !configured(e.cfg, f, e.listState) {
+		e.violate(1, "unconfigured", "Negotiate(%s) called, but the config callback does not return that feature for this session (profile %d) in state %s", f.Local, e.cfg.Profile, stateStr(e.listState))
+	}
 	// rule 1
 	e.c.Count("r1_checks", 1)
 	if !elig(f, st) {
@@ -573,6 +694,14 @@ func (e *exec) onNegotiate(f *Feat, s *xmpp.Session, data any) (xmpp.SessionStat
 	}
 
 	e.negotiated[f.Space] = true
+	if e.nested != nil && !e.nestedRan {
+		// another session of the same Negotiator value lives its whole life right
+		// here, in the middle of this one
+		e.nestedRan = true
+		e.logf("-- nested session starts")
+		e.nested()
+		e.logf("-- nested session ended")
+	}
 	if f.Fail {
 		e.c.Count("failing_negotiate_calls", 1)
 		return 0, nil, fmt.Errorf("c01: feature %s fails", f.Local)
@@ -779,6 +908,30 @@ func (e *exec) onWrite(chunk []byte) {
 	}
 }
 
+// noteConfig records the reference configuration at a features list and counts
+// the situations in which a stale configuration would show.
+func (e *exec) noteConfig(st uint8) {
+	e.listState = st
+	mask := 0
+	for i := range e.cfg.Feats {
+		if configured(e.cfg, &e.cfg.Feats[i], st) {
+			mask |= 1 << i
+		}
+	}
+	if e.cfg.Dyn {
+		e.c.Count("dyn_lists_"+e.cfg.Role, 1)
+		if e.nLists > 0 && e.cfgHdr == e.nHdrOut {
+			if mask != e.cfgMask {
+				e.c.Count("dyn_config_changed_between_lists_of_one_stream_"+e.cfg.Role, 1)
+			}
+			if e.nestedRan {
+				e.c.Count("dyn_same_stream_list_after_nested_session_"+e.cfg.Role, 1)
+			}
+		}
+	}
+	e.cfgMask, e.cfgHdr = mask, e.nHdrOut
+}
+
 // forcedDone: the expected unconditional STARTTLS attempt must have happened by
 // the time the library does anything else on the wire or returns.
 func (e *exec) forcedDone(where string) {
@@ -821,9 +974,10 @@ func (e *exec) onFeaturesOut(names []xml.Name) {
 		e.violate(6, "features-before-header", "a features list was written after a Negotiate returned a new ReadWriter and before a fresh stream header")
 	}
 	e.c.Count("r8_lists_checked", 1)
+	e.noteConfig(st)
 	want := map[*Feat]int{}
 	for i := range e.cfg.Feats {
-		if f := &e.cfg.Feats[i]; elig(f, st) {
+		if f := &e.cfg.Feats[i]; elig(f, st) && configured(e.cfg, f, st) {
 			want[f] = 1
 		}
 	}
@@ -845,12 +999,16 @@ func (e *exec) onFeaturesOut(names []xml.Name) {
 		switch {
 		case called[f] < want[f]:
 			e.violate(8, "list-missing", "state %s: %s has its prerequisites but List was not called", stateStr(st), f.Local)
+		case called[f] > want[f] && !configured(e.cfg, f, st):
+			e.violate(8, "list-unconfigured", "state %s, profile %d: List(%s) called although the config callback does not return that feature for this session at this step", stateStr(st), e.cfg.Profile, f.Local)
 		case called[f] > want[f]:
 			e.violate(8, "list-extra", "state %s: List(%s) called %d time(s), expected %d", stateStr(st), f.Local, called[f], want[f])
 		}
 		switch {
 		case wire[f] < want[f]:
 			e.violate(8, "wire-missing", "state %s: %s has its prerequisites but is not in the features list on the wire", stateStr(st), f.Local)
+		case wire[f] > want[f] && !configured(e.cfg, f, st):
+			e.violate(8, "wire-unconfigured", "state %s, profile %d: %s is in the features list on the wire although the config callback does not return that feature for this session at this step", stateStr(st), e.cfg.Profile, f.Local)
 		case wire[f] > want[f]:
 			e.violate(8, "wire-extra", "state %s: %s appears %d time(s) in the features list on the wire, expected %d", stateStr(st), f.Local, wire[f], want[f])
 		}
@@ -862,7 +1020,7 @@ func (e *exec) onFeaturesOut(names []xml.Name) {
 	e.nLists++
 	e.last = map[string]adEnt{}
 	for f := range wire {
-		e.last[f.Space] = adEnt{f: f, eligAtAd: elig(f, st)}
+		e.last[f.Space] = adEnt{f: f, eligAtAd: elig(f, st) && configured(e.cfg, f, st)}
 		e.streamAds[f.Space] = true
 	}
 }
@@ -936,6 +1094,7 @@ func (e *exec) initiatorScript(written []byte) ([]byte, bool) {
 	ad := e.cfg.Ads[e.nextAd]
 	e.nextAd++
 	st := e.sample("advertisement")
+	e.noteConfig(st)
 	e.nLists++
 	e.c.Count("advertisements_sent", 1)
 	e.last = map[string]adEnt{}
@@ -962,13 +1121,18 @@ func (e *exec) initiatorScript(written []byte) ([]byte, bool) {
 			for _, o := range ad {
 				real = real || (o.Feat == it.Feat && o.Alias == "")
 			}
-			if !real && !f.Info && elig(f, st) && !e.negotiated[f.Space] {
+			if !real && !f.Info && elig(f, st) && configured(e.cfg, f, st) && !e.negotiated[f.Space] {
 				e.c.Count("r2_lookalike_of_eligible_feature_without_the_real_element", 1)
 			}
 			continue
 		}
 		sb.WriteString(elemText(f.Space, f.Local, f.Req, it.Children))
-		el := elig(f, st)
+		// "eligible when advertised" = in the library's cache: configured for this
+		// session at this step and prerequisites hold
+		el := elig(f, st) && configured(e.cfg, f, st)
+		if !configured(e.cfg, f, st) {
+			e.c.Count("dyn_advertised_but_unconfigured", 1)
+		}
 		e.last[f.Space] = adEnt{f: f, eligAtAd: el}
 		e.streamAds[f.Space] = true
 		if !el {
@@ -990,7 +1154,7 @@ func (e *exec) initiatorScript(written []byte) ([]byte, bool) {
 	// (the library takes the first negotiable feature in the STARTTLS namespace)
 	for i := range e.cfg.Feats {
 		f := &e.cfg.Feats[i]
-		if f.Space != nsStartTLS || f.Info {
+		if f.Space != nsStartTLS || f.Info || !configured(e.cfg, f, st) {
 			continue
 		}
 		a, adv := e.last[f.Space]
@@ -1005,7 +1169,7 @@ func (e *exec) initiatorScript(written []byte) ([]byte, bool) {
 				e.c.Count("r1_forced_starttls_must_not_run_necessary_bit", 1)
 			}
 		}
-		if !adv && st&bSecure == 0 && elig(f, st) && !e.negotiated[f.Space] {
+		if !(adv && a.eligAtAd) && !adv && st&bSecure == 0 && elig(f, st) && !e.negotiated[f.Space] {
 			if e.nLists == 1 {
 				e.expectForced = f
 				e.c.Count("r2_forced_starttls_expected", 1)
@@ -1180,9 +1344,25 @@ var (
 	jServer2 = jid.MustParse("example.org")
 )
 
+// idConn is the transport handed to the constructors: the scripted connection,
+// with a local address that names the execution, which is how the (shared,
+// stateless) config callback learns which session it is asked about.
+type idConn struct {
+	*bufconn.Conn
+	e *exec
+}
+
+type execAddr struct{ e *exec }
+
+func (execAddr) Network() string { return "bufconn" }
+func (execAddr) String() string  { return "lib" }
+
+func (c idConn) LocalAddr() net.Addr { return execAddr{c.e} }
+
 // runSession runs one session of a group with the group's shared Negotiator.
-func runSession(c *core.Case, cfg *Cfg, neg xmpp.Negotiator, idx int, overlap bool) *exec {
-	e := &exec{c: c, cfg: cfg, sessIdx: idx, streamAds: map[string]bool{}, last: map[string]adEnt{}, negotiated: map[string]bool{}}
+// nested, if not nil, is run from inside the session's first Negotiate callback.
+func runSession(c *core.Case, cfg *Cfg, neg xmpp.Negotiator, idx int, overlap bool, nested func()) *exec {
+	e := &exec{c: c, cfg: cfg, sessIdx: idx, overlap: overlap, nested: nested, cfgHdr: -1, streamAds: map[string]bool{}, last: map[string]adEnt{}, negotiated: map[string]bool{}}
 	e.init = cfg.Init
 	if cfg.S2S {
 		e.init |= uint8(xmpp.S2S)
@@ -1212,6 +1392,12 @@ func runSession(c *core.Case, cfg *Cfg, neg xmpp.Negotiator, idx int, overlap bo
 	if idx > 0 {
 		c.Count("runs_on_reused_negotiator", 1)
 	}
+	if cfg.Dyn {
+		c.Count("runs_with_dynamic_config", 1)
+		if overlap {
+			c.Count("runs_with_dynamic_config_overlapping", 1)
+		}
+	}
 	if cfg.S2S {
 		c.Count("runs_s2s", 1)
 	} else {
@@ -1240,11 +1426,11 @@ func runSession(c *core.Case, cfg *Cfg, neg xmpp.Negotiator, idx int, overlap bo
 		}()
 		switch {
 		case cfg.Role == "receiver":
-			s, err = xmpp.ReceiveSession(ctx, e.conn, st, neg)
+			s, err = xmpp.ReceiveSession(ctx, idConn{e.conn, e}, st, neg)
 		case cfg.S2S:
-			s, err = xmpp.NewSession(ctx, jServer2, jServer, e.conn, st, neg)
+			s, err = xmpp.NewSession(ctx, jServer2, jServer, idConn{e.conn, e}, st, neg)
 		default:
-			s, err = xmpp.NewSession(ctx, jServer, jClient, e.conn, st, neg)
+			s, err = xmpp.NewSession(ctx, jServer, jClient, idConn{e.conn, e}, st, neg)
 		}
 	})
 	outcome := "failed"
@@ -1365,13 +1551,49 @@ func runGroup(c *core.Case, g *Group) {
 			c.Count("reuse_groups_sequential", 1)
 		}
 	}
+	if g.Nested {
+		c.Count("reuse_groups_nested", 1)
+	}
 	for rep := 0; rep < g.Reps; rep++ {
 		feats := buildFeatures(first.Feats)
-		sc := xmpp.StreamConfig{Features: feats}
+		base := xmpp.StreamConfig{Features: feats}
 		if first.Tee {
-			sc.TeeIn, sc.TeeOut = io.Discard, io.Discard
+			base.TeeIn, base.TeeOut = io.Discard, io.Discard
 		}
-		cf := func(*xmpp.Session, *xmpp.StreamConfig) xmpp.StreamConfig { return sc }
+		// the answers of a dynamic config callback, by (profile, Secure|Authn bits)
+		var dynCfg [3][4]xmpp.StreamConfig
+		if first.Dyn {
+			for p := 0; p < 3; p++ {
+				for b := uint8(0); b < 4; b++ {
+					sc := base
+					sc.Features = nil
+					pc := Cfg{Dyn: true, Profile: p}
+					for i := range first.Feats {
+						if configured(&pc, &first.Feats[i], b) {
+							sc.Features = append(sc.Features, feats[i])
+						}
+					}
+					dynCfg[p][b] = sc
+				}
+			}
+		}
+		// The callback is as stateless as the features: it answers from the session
+		// it is given (whose transport names the execution) and nothing else.
+		cf := func(s *xmpp.Session, _ *xmpp.StreamConfig) xmpp.StreamConfig {
+			if s == nil {
+				return base
+			}
+			a, _ := s.Conn().LocalAddr().(execAddr)
+			if a.e == nil {
+				panic("c01: config callback given a session whose connection is not the one handed to the constructor")
+			}
+			a.e.consults++
+			c.Count("config_callback_consultations", 1)
+			if !a.e.cfg.Dyn {
+				return base
+			}
+			return dynCfg[a.e.cfg.Profile][uint8(s.State())&bGate]
+		}
 		var neg xmpp.Negotiator
 		if first.WS {
 			neg = websocket.Negotiator(cf)
@@ -1379,10 +1601,18 @@ func runGroup(c *core.Case, g *Group) {
 			neg = xmpp.NewNegotiator(cf)
 		}
 		res := make([]*exec, len(g.Sessions))
-		one := func(i int) {
+		var one func(i int)
+		one = func(i int) {
 			// each execution gets its own copy: the receiver script mutates SkipHeader
 			cp := *g.Sessions[i]
-			res[i] = runSession(c, &cp, neg, i, g.Overlap)
+			var nested func()
+			if g.Nested && i == 0 {
+				nested = func() {
+					c.Count("nested_sessions_run", 1)
+					one(1)
+				}
+			}
+			res[i] = runSession(c, &cp, neg, i, g.Overlap, nested)
 		}
 		if g.Overlap {
 			var wg sync.WaitGroup
@@ -1396,6 +1626,14 @@ func runGroup(c *core.Case, g *Group) {
 			wg.Wait()
 		} else {
 			for i := range g.Sessions {
+				if g.Nested && i == 1 {
+					if res[1] == nil {
+						// session 1 never reached a Negotiate callback to host it
+						c.Count("nested_sessions_run_afterwards_instead", 1)
+						one(1)
+					}
+					continue
+				}
 				one(i)
 			}
 		}
@@ -1416,11 +1654,12 @@ func Prop() *core.Prop {
 	return &core.Prop{
 		ID:    "C01",
 		Level: core.Exploration,
-		Rule:  "each case configures 2-6 instrumented xmpp.StreamFeature values (PRNG masks over Secure/Authn, mandatory or voluntary, restarting or not, informational or negotiable, optional STARTTLS namespace, bind-like Ready, failing) and an initial state {0,Secure,Authn,Secure|Authn} x {c2s,s2s} x {TCP via xmpp.NewNegotiator, WebSocket via websocket.Negotiator}; even indexes run xmpp.NewSession four times against a scripted peer that advertises PRNG lists (subsets, orders, unknown, duplicate, ineligible, empty, look-alike elements sharing only the namespace or only the local name of a feature), odd indexes run xmpp.ReceiveSession against a peer sending fresh, unadvertised, repeated, informational, unknown and IQ-wrapped selections. 40% of the cases are groups of 2-4 sessions that share ONE Negotiator value and ONE []StreamFeature slice (sequentially, a quarter of them overlapping on goroutines; no race detector), a quarter of the cases set StreamConfig.TeeIn/TeeOut, restarting features may return a wrapper of their own around session.Conn() (which makes the negotiator re-install the tee), voluntary non-restarting features may carry Ready in their mask next to a mandatory feature, and 1/8 of the initiator cases are shaped tee + real-shaped STARTTLS + voluntary wrapping feature. Rules 1-8 of DESIGN.md 5/C01 are checked in the callbacks, on every write of the library and at constructor return. distinct = (role, framing, c2s/s2s, initial state, #features, #lists, #negotiations, #restarts, forced STARTTLS, refusal category, outcome).",
+		Rule:  "each case configures 2-6 instrumented xmpp.StreamFeature values (PRNG masks over Secure/Authn, mandatory or voluntary, restarting or not, informational or negotiable, optional STARTTLS namespace, bind-like Ready, failing) and an initial state {0,Secure,Authn,Secure|Authn} x {c2s,s2s} x {TCP via xmpp.NewNegotiator, WebSocket via websocket.Negotiator}; even indexes run xmpp.NewSession four times against a scripted peer that advertises PRNG lists (subsets, orders, unknown, duplicate, ineligible, empty, look-alike elements sharing only the namespace or only the local name of a feature), odd indexes run xmpp.ReceiveSession against a peer sending fresh, unadvertised, repeated, informational, unknown and IQ-wrapped selections. 40% of the cases are groups of 2-4 sessions that share ONE Negotiator value and ONE []StreamFeature slice (sequentially, a quarter of them overlapping on goroutines; no race detector), a quarter of the cases set StreamConfig.TeeIn/TeeOut, restarting features may return a wrapper of their own around session.Conn() (which makes the negotiator re-install the tee), voluntary non-restarting features may carry Ready in their mask next to a mandatory feature, and 1/8 of the initiator cases are shaped tee + real-shaped STARTTLS + voluntary wrapping feature. A third of the random cases (and the deterministic families at case indexes 0-3 mod 32) use a config callback whose answer depends on the session (a profile, learnt from the session's transport) and on its Secure/Authn bits; in nested groups the second session lives its whole life inside the first Negotiate callback of the first. Rules 1-8 of DESIGN.md 5/C01 are checked in the callbacks, on every write of the library and at constructor return. distinct = (role, framing, c2s/s2s, initial state, #features, #lists, #negotiations, #restarts, forced STARTTLS, refusal category, outcome).",
 		Assumptions: []string{
 			"a feature is identified by its namespace (the library's caches are keyed that way); configured features have distinct namespaces and non-empty local names",
 			"Parse consumes its element and Negotiate on the receiving side consumes the selection element, as the built-in features do; callbacks do no other wire I/O",
 			"eligibility (rules 1, 4, 7, 8) is judged against Session.State() OR-ed with the monitor's own model of the state (initial state plus every mask returned by a successful Negotiate callback); State() lacking a model bit is itself reported (rule 5, stale-state)",
+			"the configured features of a session at a step are what the case's config callback returns for that session (profile) in the state the features list of that step was advertised in; the reference evaluates that function itself and does not depend on when or how often the library consults the callback",
 			"rule 2: a feature is advertised only by an element with exactly its name (namespace and local name) in the current features list; rule 7 counts a mandatory feature as pending only if it was eligible when advertised and still is at constructor return",
 			"rule 2, other direction: when a negotiable STARTTLS-namespace feature is configured and eligible, the session is not secure and the first features list of the session does not advertise it, Negotiate of that feature must be the next callback (peer headers before a first list are always valid, so nothing can legitimately fail in between); on any later list such an attempt is a rule-2 violation",
 			"rule 6 also demands that a session is not reported established between a restart-requesting Negotiate and the fresh header, unless some Negotiate of that session put Ready into its own mask (the library takes a feature's Ready at its word)",
@@ -1459,6 +1698,10 @@ func Prop() *core.Prop {
 			"r2_later_list_without_starttls_after_tee_reinstall",
 			// restarts taken from lists without a mandatory feature; forced attempt vs
 			// arbitrary masks and initial states
+			// dynamic config callback (deterministic families at case indexes 0-3 mod 32)
+			"runs_with_dynamic_config", "config_callback_consultations", "nested_sessions_run",
+			"dyn_config_changed_between_lists_of_one_stream_initiator", "dyn_config_changed_between_lists_of_one_stream_receiver",
+			"dyn_same_stream_list_after_nested_session_initiator", "dyn_same_stream_list_after_nested_session_receiver",
 			// elements that share only a namespace / only a local name with a feature
 			"r2_lookalike_elements_advertised_same_namespace", "r2_lookalike_elements_advertised_same_local_name",
 			"r2_lookalike_of_eligible_feature_without_the_real_element",
